@@ -402,7 +402,7 @@ CmdXREADGROUP(a, K) ==
                      (* known defect xreadgroup_history_redelivers: an explicit id is treated as a position in the
                         STREAM: every entry after it is delivered (again) and becomes pending for this consumer *)
                      fes == IF o.count = 0 THEN <<>> ELSE FirstN(After(v.ents, from), lim)
-                     fr == IF fes = <<>> THEN RArr(<<>>) ELSE one(REnts(fes))
+                     fr == IF fes = <<>> THEN ROneOf({RArr(<<>>), one(RArr(<<>>))}) ELSE one(REnts(fes))
                      facked == fes # <<>> /\ ~o.noack
                      g2 == [grp EXCEPT !.cons = Seen(grp, c, facked), !.pel = Redeliver(@, ids, v)]
                      fg == IF facked
